@@ -280,7 +280,17 @@ fn check_state(ex: &Exec, fails: &mut Vec<(String, String, String)>) {
         walk(&m.root_element(), "", 0, &mut computed, fails, &hn);
         for (p, els) in &computed {
             if els.len() > 1 {
-                fails.push(("C04".into(), "duplicate-path".into(), format!("model {} {} x{}", mi, p, els.len())));
+                // where=different-containers: the elements that share the path sit under different parents of different kinds
+                // (e.g. one below EXPLICIT-, one below IMPLICIT-INTER-RUNNABLE-VARIABLES); where=same-container-kind otherwise
+                let parents: Vec<Option<Element>> = els.iter().map(|e| e.parent().ok().flatten()).collect();
+                let all_differ = (0..parents.len()).all(|i| {
+                    (i + 1..parents.len()).all(|j| match (&parents[i], &parents[j]) {
+                        (Some(a), Some(b)) => a != b && a.element_name() != b.element_name(),
+                        _ => false,
+                    })
+                });
+                let wh = if all_differ { "different-containers" } else { "same-container-kind" };
+                fails.push(("C04".into(), "duplicate-path".into(), format!("model {} {} x{} where={}", mi, p, els.len(), wh)));
             }
         }
         let mut index: BTreeMap<String, Vec<Option<Element>>> = BTreeMap::new();
